@@ -604,7 +604,8 @@ theorem spread_via_func_value_regression :
 /-! ### result routing -/
 
 /-- **Result routing**: for every context (multi-assignment with any pattern of blanks, return statement with the call at
-    any operand position, results left in the call's own frame cells for an expression / nested call / statement) and
+    any operand position, results left in the call's own frame cells for an expression / nested call / statement, the bool
+    result of a call used as a condition) and
     every number of results, result `i` of the host function lands in the cell the context reads. -/
 theorem result_routing_correct (c : Ctx) (nOut : Nat) : routeY E c nOut = routeSpec c nOut := by
   unfold routeY routeSpec
@@ -623,6 +624,43 @@ theorem nested_read_matches (fi j : Nat) :
 /-- non-vacuity: `a, _, c := F()` -/
 example : routeY E (.assignX [false, true, false]) 3 = [(0, .lhs 0), (1, .dropped), (2, .lhs 2)] ∧
     routeY E (.ret 1) 1 = [(0, .result 1)] ∧ routeY E (.deflt 7) 2 = [(0, .tmp 7), (1, .tmp 8)] := by decide
+
+/-! ### a host call as a condition -/
+
+theorem branchReads_both : ∀ (init : Bool) (rs : List Bool), branchReadsY .both init rs = rs := by
+  intro init rs
+  induction rs generalizing init with
+  | nil => rfl
+  | cons r rs ih => simp [branchReadsY, branchStep, ih]
+
+/-- **A host call used as a condition, executed repeatedly** (`branchStore`, regenerated from the branch arm of callBin: the
+    cell is written on BOTH outcomes) — the operand of `&&` / `||` / `!`, an `if` or `for` condition, in a loop: for every
+    previous content of the call's cell and EVERY sequence of results of the successive calls, the value the enclosing
+    operation reads after the k-th call is the k-th result, never an earlier one. -/
+theorem branch_store_correct (init : Bool) (rs : List Bool) : branchReadsY E.branchStore init rs = rs :=
+  branchReads_both init rs
+
+theorem branch_read_kth (init : Bool) (rs : List Bool) (k : Nat) :
+    (branchReadsY E.branchStore init rs)[k]? = rs[k]? := by
+  rw [branch_store_correct]
+
+/-- whatever the consumer — a branch (`if`, `for`, `!`, right operand) or an `&&` / `||` that reads the cell again —, after the
+    k-th execution it sees the k-th result -/
+theorem cond_seen_correct (u : CondUse) (rs : List Bool) (k : Nat) :
+    (condSeenY E.branchStore u rs)[k]? = rs[k]? := by
+  cases u
+  · rfl
+  · exact branch_read_kth false rs k
+
+theorem branch_store_generated (init : Bool) (rs : List Bool) : branchReadsY Generated.C07.facts.branchStore init rs = rs := by
+  rw [facts_tie]; exact branch_store_correct init rs
+
+/-- the cell written only when the host returned true (seeded change C07-3): `for … { if hp.IsEven(x) && x < limit {…} }` with
+    results true, false — after the second call the cell still holds the first result -/
+theorem stale_branch_witness :
+    branchReadsY .trueOnly false [true, false] = [true, true] ∧ branchReadsY .trueOnly false [false, true, false, false] = [false, true, true, true] ∧
+    branchReadsY .falseOnly true [false, true] = [false, false] ∧ branchReadsY .never false [true] = [false] ∧
+    condSeenY .trueOnly .rereadsCell [true, false] = [true, true] ∧ condSeenY .trueOnly .branchOnly [true, false] = [true, false] := by decide
 
 /-! ### the reflect.MakeFunc wrapper -/
 
